@@ -1,7 +1,7 @@
 #!/bin/bash
 # run every property's quick (or given tier) check on the unchanged tree, one after the other; summary on stdout
 cd "$(dirname "$0")/.."; tier=${1:-quick}; out=${SWEEP_OUT:-/tmp/sweep}; mkdir -p $out
-for i in 01 02 03 04 05 06 07 08 09 10 11 12 13 14 15 16 17 18 19 20; do
+for i in ${SWEEP_PROPS:-01 02 03 04 05 06 07 08 09 10 11 12 13 14 15 16 17 18 19 20}; do
   /usr/bin/time -f "%e" -o $out/C$i.time ./check C$i --tier $tier > $out/C$i.log 2>&1; rc=$?
   echo "C$i exit=$rc wall=$(cat $out/C$i.time) :: $(grep ' tier=' $out/C$i.log | tail -1 | cut -c1-170)"
 done
